@@ -245,7 +245,7 @@ func init() {
 				}
 			}
 			// around the 8 KiB prefetch limit and larger
-			for i := 0; i < t.Scale(600, 10000); i++ {
+			for i := 0; i < t.Scale(600, 6000); i++ {
 				n := []int{100, 4096, 8191, 8192, 8193, 8200, 12000, 20000, 70000}[t.R.Intn(9)]
 				ch := "-"
 				if t.R.Intn(2) == 0 {
@@ -341,7 +341,7 @@ func init() {
 			return nil
 		},
 		Gen: func(t *T) {
-			for i := 0; i < t.Scale(1500, 30000); i++ {
+			for i := 0; i < t.Scale(1500, 15000); i++ {
 				n := []int{0, 1, 2, 7, 20, 100, 1000, 5000, 8191, 8192, 8193, 9000, 20000}[t.R.Intn(13)]
 				if t.R.Intn(3) == 0 {
 					n = t.R.Intn(300)
